@@ -975,6 +975,48 @@ func compress(codec int, data []byte) []byte {
 	return buf.Bytes()
 }
 
+// zstdBlockStarts returns the offsets of the block headers of the first frame of a zstd image
+// (RFC 8878: magic, frame header descriptor, optional window / dictionary id / content size
+// fields, then blocks with a 3-byte header: last flag, type, size).
+func zstdBlockStarts(img []byte) []int {
+	if len(img) < 6 || img[0] != 0x28 || img[1] != 0xB5 || img[2] != 0x2F || img[3] != 0xFD {
+		return nil
+	}
+	fhd := img[4]
+	pos := 5
+	single := fhd&0x20 != 0
+	if !single {
+		pos++ // window descriptor
+	}
+	pos += []int{0, 1, 2, 4}[fhd&3]
+	switch fhd >> 6 {
+	case 0:
+		if single {
+			pos++
+		}
+	case 1:
+		pos += 2
+	case 2:
+		pos += 4
+	case 3:
+		pos += 8
+	}
+	var starts []int
+	for pos+3 <= len(img) {
+		h := int(img[pos]) | int(img[pos+1])<<8 | int(img[pos+2])<<16
+		starts = append(starts, pos)
+		size := h >> 3
+		if (h>>1)&3 == 1 {
+			size = 1 // RLE block: one byte of content
+		}
+		pos += 3 + size
+		if h&1 == 1 {
+			break
+		}
+	}
+	return starts
+}
+
 // memberBoundary tells whether cutting the several-member gzip image of text at k leaves a
 // complete gzip file (one or two whole members): such a cut is not a damaged input.
 func memberBoundary(text []byte, k int) bool {
@@ -1120,6 +1162,24 @@ func runC17(rc *RunCtx) {
 			k = t.Choose(n)
 		}
 		bit = t.Choose(8)
+		if t.Choose(12) == 11 {
+			// a zstd frame of several blocks, damaged in the head of a block that is not the
+			// first (literals header, Huffman / FSE table descriptions): the decoder has
+			// already delivered data when it meets the damage
+			recs := genRecs(t, 260+t.Choose(100), 0, false, 500, 900)
+			fc = &fileCase{Shape: fileShape{Format: fmFasta, Fold: 60}, Recs: recs}
+			renderFile(fc)
+			codec, kind = 4, fkFlip
+			image = compress(codec, fc.Text)
+			if starts := zstdBlockStarts(image); len(starts) >= 2 {
+				b := starts[1+t.Choose(len(starts)-1)]
+				k = b + 3 + t.Choose(40)
+				if k >= len(image) {
+					k = len(image) - 1
+				}
+				rc.Probe("zstd_later_block_head_damaged")
+			}
+		}
 	}
 	n := len(image)
 	cfg := drawReadCfg(t, len(fc.Text), true)
